@@ -113,9 +113,14 @@ func (h *gatedHarness) compose(events []*eventlogger.Event) (eventlogger.EventTy
 	c := composite{id: e.id, uids: e.uids}
 	if h.cg != 0 && e.id == h.cg {
 		e.fate = "gateableerr"
-		return "t", &gcomposite{c}, nil
+		return composedType(e.id), &gcomposite{c}, nil
 	}
-	return "t", &c, nil
+	return composedType(e.id), &c, nil
+}
+
+// the type composition chooses for the composite: not the type of the events it was made from
+func composedType(id int) eventlogger.EventType {
+	return eventlogger.EventType(fmt.Sprintf("composed-%d", id))
 }
 
 func (h *gatedHarness) Send(ctx context.Context, t eventlogger.EventType, payload interface{}) (eventlogger.Status, error) {
@@ -123,6 +128,9 @@ func (h *gatedHarness) Send(ctx context.Context, t eventlogger.EventType, payloa
 	if !ok {
 		h.oracle("C11 a Gateable composite was sent through the Broker: %T", payload)
 		return eventlogger.Status{}, nil
+	}
+	if t != composedType(c.id) {
+		h.oracle("C11 the composite of id %d was sent through the Broker as type %q, composition returned %q", c.id, t, composedType(c.id))
 	}
 	var e *gemit
 	for _, x := range h.emits {
@@ -296,6 +304,9 @@ func (h *gatedHarness) exec(line string) string {
 				return "err"
 			}
 			ret = "flushed " + showInts(c.uids)
+			if out.Type != composedType(c.id) {
+				h.oracle("C11 the composite that continues down the pipeline has type %q, composition returned %q", out.Type, composedType(c.id))
+			}
 			if !p.flush {
 				h.oracle("C11 a composite was returned although the event is no flush event")
 			}
@@ -449,6 +460,12 @@ func genGatedCase(p *prng, maxLen int) []string {
 				now += p.intn(exp)
 			} else if p.chance(1, 6) {
 				now += exp + p.intn(2*exp) // make several groups expire at once
+			} else if maxLen > 20 && p.chance(1, 10) {
+				// the clock steps back (NowFunc is the caller's): a group opened now expires before older ones
+				now -= p.intn(2 * exp)
+				if now < 0 {
+					now = 0
+				}
 			}
 			fl := 0
 			if p.chance(1, 5) {
